@@ -27,7 +27,7 @@ MatchNotFoundError -/
 theorem get_is_getter (stepsOf : Heap → List (Step Val)) (h : Heap) (data : Val) (m : MNode Val)
     (hm : getMatch (wcx h) (stepsOf h).toArray (.doc data) true = .ok (some m)) :
     descrGet .get stepsOf h data = .ok (.value m.data) := by
-  simp [descrGet, hm]
+  simp [descrGet, descrGetS, hm]
 
 /-- a typed attribute wraps the selected JSON node itself, not a copy: the nested document's
 data *is* the value the getter returned — for a container, the same object reference — so a
@@ -35,7 +35,7 @@ write through the typed object is a write to the original store -/
 theorem typed_is_alias (stepsOf : Heap → List (Step Val)) (h : Heap) (data : Val) (m : MNode Val)
     (hm : getMatch (wcx h) (stepsOf h).toArray (.doc data) true = .ok (some m)) :
     typedData .get stepsOf h data = .ok m.data := by
-  simp [typedData, descrGet, hm]
+  simp [typedData, typedDataS, descrGetS, hm]
 
 /-- iterator-typed attributes reject assignment with SetError and leave the store unchanged -/
 theorem iter_rejects_assignment (h : Heap) : descrSetIter h = (h, .error .setError) := rfl
@@ -61,7 +61,7 @@ theorem attr_read_is_the_definitions_first (stepsOf : Heap → List (Step Val)) 
     (hu : Unf h data j) (sb : Array (Step J)) (hsteps : LRel (StepRel (Unf h)) (stepsOf h) sb.toList)
     (hp : PredsClean sb) (v : Val) (hg : descrGet .get stepsOf h data = .ok (.value v)) :
     ∃ m', (evalE sb.toList (.root j)).1.head? = some m' ∧ Unf h v m'.data := by
-  simp only [descrGet] at hg
+  simp only [descrGet, descrGetS] at hg
   split at hg
   · rename_i m hm
     simp only [Except.ok.injEq, DOut.value.injEq] at hg
@@ -70,5 +70,19 @@ theorem attr_read_is_the_definitions_first (stepsOf : Heap → List (Step Val)) 
     exact ⟨m', hhead, hrel.data⟩
   · simp at hg
   · simp at hg
+
+/-- an attribute typed with `getter=get_match` wraps the Match: the attributes of the nested
+document are searched *from that match* (`get(expr, match)`, `set_(expr, v, match)`,
+`pop(expr, match)`), so a path that climbs with parent steps reaches above the wrapped node -/
+theorem typed_through_get_match (stepsOf : Heap → List (Step Val)) (h : Heap) (src : Src Val) (m : MNode Val)
+    (hm : getMatch (wcx h) (stepsOf h).toArray src true = .ok (some m))
+    (inner : Heap → List (Step Val)) (c : Conv) (w : Val) :
+    typedMatch stepsOf h src = .ok (.nested m) ∧
+    descrGetS .get inner h (.nested m) =
+      (match getMatch (wcx h) (inner h).toArray (.nested m) true with
+       | .ok (some r) => .ok (.value r.data) | .ok none => .error (.bug "must_match") | .error e => .error e) ∧
+    descrSetS c inner h (.nested m) w = setMatch inner (.nested m) false h (c.unwrap w) ∧
+    descrDelS inner h (.nested m) = pop inner (.nested m) none h := by
+  refine ⟨by simp [typedMatch, hm], rfl, rfl, rfl⟩
 
 end Treepath.C18
